@@ -11,6 +11,10 @@
                                 REQUESTED from the sender), metadata written, then — if
                                 something was at p — RemoveAll(p) when directory-ness differs,
                                 and rename over p.  modify of a missing path = error.
+   A device or fifo entry WITH a Linkname is a further name of an existing inode like a regular
+   one: the device / fifo case of the switch applies to an empty Linkname only ([is_hardlink] =
+   neither directory nor symbolic link, Linkname non-empty; the walker reports a Linkname for
+   every non-directory with more than one name).
    Re-linking a path that already is a link to the inode of dest/Linkname leaves the tree
    as it is (since /repo 19c7373 the temporary link is removed instead of renamed): here the
    entry keeps the inode class of its target, which is the one it had.
@@ -33,14 +37,19 @@
    variables.
 
    Simplifications (stated, not hidden):
-   * the FilterFunc of the DiskWriter is NOT modelled here (filter = nil; Model/Diff.v has it);
+   * the FilterFunc of the DiskWriter (DiskWriterOpt.Filter = ReceiveOpt.Filter) is modelled by
+     the [_f] variants at the end of this file ([receive_abs_f]): the writer works on a COPY of
+     the stat that the filter has rewritten (metadata on disk, link and symlink targets, device
+     numbers), the notification and the hashed header keep the stat as sent; everything above
+     is the case filter = nil;
    * file contents complete in HandleChange order: the model emits the notification of a
      regular file at the position of its HandleChange call; the real one is emitted by a
      goroutine when the content has arrived (any later position) — see
      Proofs/AbsDestP.v, replay_delay, for why the position does not matter;
-   * a hard-link entry that names a symbolic link, a device or a fifo (os.Link succeeds and
-     gives that special inode a second name) is kept with the stat as sent; [links_ok]
-     excludes it, no generator produces it;
+   * a hard-link entry that names a symbolic link (os.Link succeeds and gives the link itself
+     a second name) is kept with the stat as sent; [links_ok] excludes it, no generator
+     produces it (the walker reports a second name of a symbolic link as a symbolic link whose
+     target is the first name — not a hard-link entry at all);
    * a default-branch entry whose mode has ModeSocket/ModeIrregular/lone ModeCharDevice
      would make receiver.asyncDataFunc fail ("invalid file request"); not modelled;
    * the directory-mtime pass of DiskWriter.Wait is not modelled (directory mtime and size
@@ -75,7 +84,13 @@ Definition is_special (st : stat) : bool :=
 (* reaches the last two cases of the switch: hard link or regular file *)
 Definition is_reg (st : stat) : bool :=
   negb (st_is_dir st) && negb (is_special st) && negb (mode_is_symlink (st_mode st)).
-Definition is_hardlink (st : stat) : bool := is_reg st && negb (is_empty (st_linkname st)).
+(* an inode that can have several names in a listing: anything but a directory or a symbolic link
+   (for a symbolic link Linkname is its target) *)
+Definition is_node (st : stat) : bool := negb (st_is_dir st) && negb (mode_is_symlink (st_mode st)).
+(* a FURTHER NAME of such an inode — regular file, device or fifo alike: the device / fifo case of
+   HandleChange applies to an empty Linkname only, every other non-directory, non-symlink entry
+   with a Linkname reaches `case statCopy.Linkname != ""` (os.Link) *)
+Definition is_hardlink (st : stat) : bool := is_node st && negb (is_empty (st_linkname st)).
 (* default case: regular file whose content is requested *)
 Definition wants_content (st : stat) : bool := is_reg st && is_empty (st_linkname st).
 
@@ -99,7 +114,7 @@ Definition ino_meta_eqb (t s : stat) : bool :=
 (* the stat a NEW NAME of the inode shown as [t] presents when it was announced as [st]: the
    inode's metadata under the path (and Linkname) of the announcement *)
 Definition link_stat (t st : stat) : stat :=
-  if is_reg t then
+  if is_node t then
     {| st_path := st_path st; st_mode := st_mode t; st_uid := st_uid t; st_gid := st_gid t;
        st_size := st_size t; st_mtime := st_mtime t; st_linkname := st_linkname st;
        st_devmajor := st_devmajor t; st_devminor := st_devminor t; st_xattrs := st_xattrs t |}
@@ -297,11 +312,13 @@ Definition recv_honest_by (eqb : stat -> stat -> bool) (m : rmode) (d : differ) 
 Definition recv_honest := recv_honest_by stat_eqb.
 
 (* ---------------------------------------------------------------- hypotheses of the theorems *)
-(* a hard-link entry names an earlier regular entry of the same listing with the same bytes *)
+(* a hard-link entry names an earlier entry of the same listing that is neither a directory nor a
+   symbolic link (a regular one if the link entry says "regular"), with the same bytes *)
 Definition links_ok (B : list entry) : Prop :=
   forall sb bb, In (sb, bb) B -> is_hardlink sb = true ->
   exists st bt, In (st, bt) B /\ st_path st = st_linkname sb /\
-                compare_path (st_path st) (st_path sb) = Lt /\ is_reg st = true /\ bt = bb.
+                compare_path (st_path st) (st_path sb) = Lt /\ is_node st = true /\
+                (is_reg sb = true -> is_reg st = true) /\ bt = bb.
 
 (* honest sender: a hard-link entry carries the metadata of the entry it names (all names of
    an inode are listed with the same metadata: what every walk produces) *)
@@ -327,7 +344,8 @@ Definition links_ok_b (B : list entry) : bool :=
   forallb (fun e => negb (is_hardlink (fst e)) ||
      existsb (fun t => bytes_eqb (st_path (fst t)) (st_linkname (fst e))
                        && path_ltb (st_path (fst t)) (st_path (fst e))
-                       && is_reg (fst t) && bytes_eqb (snd t) (snd e)) B) B.
+                       && is_node (fst t) && (negb (is_reg (fst e)) || is_reg (fst t))
+                       && bytes_eqb (snd t) (snd e)) B) B.
 Definition links_meta_b (B : list entry) : bool :=
   forallb (fun e => negb (is_hardlink (fst e)) ||
      forallb (fun t => negb (bytes_eqb (st_path (fst t)) (st_linkname (fst e)))
@@ -399,3 +417,88 @@ Definition dest_listing (B : list entry) (D : dmap) : list entry :=
                 | Some x => (set_path (de_stat x) (st_path (fst e)), de_bytes x)
                 | None => e
                 end) B.
+
+(* ------------------------------------------------------------------------------------------
+   The receiver's Filter (ReceiveOpt.Filter, handed to BOTH doubleWalkDiff and the DiskWriter).
+   [wf p st] = (result, the stat as the FilterFunc leaves its copy).
+   HandleChange:  statCopy := stat.Clone(); if !filter(p, statCopy) { return nil }   — skipped:
+   nothing written, nothing notified; for a delete the filter sees an empty stat and only its
+   result counts.  Everything that reaches the disk comes from statCopy (rewriteMetadata,
+   symlink / hard-link target, device numbers, the chmod/chtimes after the content); the
+   notification (processChange(kind, p, fi, ...)) and the header given to the ContentHasher
+   come from fi: the stat AS SENT.  The type switch looks at fi's mode and statCopy's Linkname:
+   the model switches on statCopy — exact for filters that keep the type bits ([filter_ok]).
+   doubleWalkDiff compares the old entry with the filtered copy of the new one (boolean result
+   ignored) and hands the entry as sent to HandleChange: Diff.diff (filter_stat wf). *)
+Definition empty_stat : stat :=
+  {| st_path := []; st_mode := 0; st_uid := 0; st_gid := 0; st_size := 0; st_mtime := 0;
+     st_linkname := []; st_devmajor := 0; st_devminor := 0; st_xattrs := [] |}.
+
+Section Filtered.
+Variable wf : bytes -> stat -> bool * stat.
+
+Definition filter_stat (s : stat) : stat := snd (wf (st_path s) s).
+
+(* the change as the writer executes it; None = skipped *)
+Definition filter_change (c : change) : option change :=
+  match c with
+  | (KDelete, p, _) => if fst (wf p empty_stat) then Some c else None
+  | (k, p, Some st) => if fst (wf p st) then Some (k, p, Some (snd (wf p st))) else None
+  | (_, _, None) => Some c                  (* "change without stat info": error before the filter *)
+  end.
+
+Variable src : bytes -> bytes.
+
+(* as apply_all; the third component lists the changes AS RECEIVED that were executed *)
+Fixpoint apply_all_f (cs : list change) (D : dmap) (next : N) : dmap * N * list change * bool :=
+  match cs with
+  | [] => (D, next, [], false)
+  | c :: r =>
+    match filter_change c with
+    | None => apply_all_f r D next
+    | Some c' =>
+      match apply_map src D next c' with
+      | None => (D, next, [], true)
+      | Some (D', next') =>
+        let '(D2, n2, done, e) := apply_all_f r D' next' in (D2, n2, c :: done, e)
+      end
+    end
+  end.
+
+Definition req_of_f (c : change) : option bytes :=
+  match filter_change c with Some c' => req_of c' | None => None end.
+End Filtered.
+
+Section ReceiveF.
+Variable wf : bytes -> stat -> bool * stat.
+Variable H : bytes -> bytes.
+Variable hdr : stat -> bytes.
+
+Definition receive_abs_f (m : rmode) (d : differ) (A B : list entry) : dstate :=
+  let LA := match m with Fresh => map fst A | Merge => [] end in
+  let cs := diff (filter_stat wf) d LA (map fst B) in
+  let '(D, _, done, e) := apply_all_f wf (src_of B) cs (dest_of A) (N.of_nat (length A)) in
+  {| ds_map := D; ds_reqs := filter_map (req_of_f wf) done;
+     ds_notifs := map (notif_of (src_of B) H hdr) done; ds_changes := done; ds_err := e |}.
+End ReceiveF.
+
+(* the source as the writer sees it: every stat rewritten by the filter *)
+Definition filter_entries (wf : bytes -> stat -> bool * stat) (B : list entry) : list entry :=
+  map (fun e => (filter_stat wf (fst e), snd e)) B.
+
+(* a filter that never says "skip" and keeps path, type bits and link name (what the umask-,
+   ownership- and timestamp-normalising filters of the callers do) *)
+Definition filter_ok (wf : bytes -> stat -> bool * stat) : Prop :=
+  forall p s, fst (wf p s) = true /\
+    (p = st_path s ->
+     st_path (snd (wf p s)) = st_path s /\ st_is_dir (snd (wf p s)) = st_is_dir s /\
+     is_special (snd (wf p s)) = is_special s /\
+     mode_is_symlink (st_mode (snd (wf p s))) = mode_is_symlink (st_mode s) /\
+     st_linkname (snd (wf p s)) = st_linkname s).
+
+(* every hard-link change applied announces — after the filter — what the new name then shows *)
+Definition recv_honest_f_by (eqb : stat -> stat -> bool) (wf : bytes -> stat -> bool * stat)
+    (m : rmode) (d : differ) (A B : list entry) : bool :=
+  let LA := match m with Fresh => map fst A | Merge => [] end in
+  honest_run_by (src_of B) eqb
+    (filter_map (filter_change wf) (diff (filter_stat wf) d LA (map fst B))) (dest_of A) (N.of_nat (length A)).
